@@ -215,6 +215,13 @@ pub struct ServerHandle {
 }
 
 impl ServerHandle {
+    /// address of the node's simulated TCP client endpoint (only listening if the config enabled it)
+    pub fn tcp_addr(&self) -> std::net::SocketAddr {
+        std::net::SocketAddr::new(
+            std::net::IpAddr::from([127, 0, 0, 1]),
+            simcore::net::sim_tcp_port_of(self.node),
+        )
+    }
     pub fn death(&self) -> Option<String> {
         match self.done.lock().expect("done").as_ref() {
             Some(Err(e)) => Some(e.clone()),
